@@ -592,10 +592,12 @@ def penalty_cases(draw, tier):
     x = draw(st.lists(st.sampled_from(XPOOL), min_size=dim, max_size=dim))
     m = 1 if op == 'not' else draw(st.integers(1, 4))
     members = [draw(penalty_member(x)) for _ in range(m)]
-    ptype = None if op == 'not' else draw(st.sampled_from([None, None, None] + EQ_TYPES + INEQ_TYPES))
+    ptype = draw(st.sampled_from([None, None, None] + EQ_TYPES + INEQ_TYPES))
     k = draw(st.sampled_from(['unset', 'unset', None] + KPOOL))
     return dict(op=op, dim=dim, x=x, arr=draw(st.sampled_from([False, False, True])), members=members,
-                ptype=ptype, k=k)
+                ptype=ptype, k=k,
+                # not_: the member given as a raw condition function (documented) instead of a penalty
+                raw=(op == 'not') and draw(st.booleans()))
 
 
 def _build_penalty(m):
@@ -635,9 +637,14 @@ def run_penalty(case, ctx):
         kw['k'] = None if case['k'] is None else F(case['k'])
     if op == 'not':
         m = members[0]; c = conds[0]
-        P = CP.not_(ps[0], **kw)
+        raw = bool(case.get('raw'))
+        a_ = FL(m['a']); b_ = F(m['b'])
+        P = CP.not_((lambda x: lin(a_, b_, x)) if raw else ps[0], **kw)
         got = P(mkx())
-        inside = (c == 0) if m['ptype'].endswith('_equality') else (c < 0)
+        # the penalty type in effect: the one given, else the member's own, else (raw condition) linear_equality
+        eff = case['ptype'] if case['ptype'] is not None else ('linear_equality' if raw else m['ptype'])
+        inside = (c == 0) if eff.endswith('_equality') else (c < 0)
+        ctx.label('pnot:raw-condition' if raw else 'pnot:penalty-member', 'pnot:ptype-given' if case['ptype'] else 'pnot:ptype-default')
         ctx.expect((float(got) > 0) == inside and (inside or float(got) == 0), 'C17.penalty_not',
                    lambda: det(got=got, inside=inside))
         ctx.label('pnot:' + m['ptype'], 'pnot:inside' if inside else ('pnot:boundary' if c == 0 else 'pnot:outside'))
